@@ -33,7 +33,11 @@ TBind == Step("bind") /\ UNCHANGED <<scen, stype, open, how, bad, hung, good, ta
 TBindDup == Step("bind_dup") /\ Same /\ NoFlag
 TUnbind == Step("unbind") /\ UNCHANGED <<scen, stype, ever, open, how, bad, hung, good, tag, ports, sab>> /\
    IF E.name \in bound THEN
-        (IF E.res = "ok" THEN bound' = bound \ {E.name} /\ UNCHANGED rep /\ (IF E.name \in sab THEN Flag("C17/failure-not-reported:unbind") ELSE NoFlag)
+        (IF E.res = "ok" THEN bound' = bound \ {E.name} /\ UNCHANGED rep /\
+              (IF E.name \in sab THEN Flag("C17/failure-not-reported:unbind")
+               \* unbind blocks until the endpoint is no longer in use: a connect made the instant it returned was still accepted
+               ELSE IF Fld(E, "after", "n/a") = "accepted" THEN Flag("C18/unbind-returned-while-listening")
+               ELSE NoFlag)
          \* the file could not be removed: reporting it is demanded, the listener is gone all the same
          ELSE IF E.name \in sab THEN bound' = bound \ {E.name} /\ rep' = rep + 1 /\ NoFlag
          ELSE UNCHANGED <<bound, rep>> /\ Flag("C18/unbind-failed"))
@@ -105,10 +109,12 @@ TEnd == Step("end") /\ Same /\ NoFlag
 TSkipped == Step("skipped_rest") /\ Same /\ NoFlag
 TInstallMonitor == Step("install_monitor") /\ Same /\ NoFlag      \* the monitor stream asked for (again) after a bind: what follows is demanded of it all the same
 TBurst == Step("reset_burst") /\ UNCHANGED <<scen, stype, bound, ever, open, how, hung, good, tag, ports, sab, rep>> /\ bad' = bad /\ NoFlag
+TFdExhaust == Step("fd_exhaust") /\ Same /\ NoFlag
+TFdRelease == Step("fd_release") /\ Same /\ NoFlag
 TSabotage == Step("ipc_sabotage") /\ UNCHANGED <<scen, stype, bound, ever, open, how, bad, hung, good, tag, ports, rep>> /\ NoFlag
              /\ sab' = IF E.ok THEN sab \cup {E.name} ELSE sab
 TNext == TReset \/ TBind \/ TBindDup \/ TUnbind \/ TUnbindUnknown \/ TBinds \/ TProbe \/ TIpc \/ TClient \/ TConnectOut \/ TExchange \/ TMonitor \/ TClose \/ TDrop \/ TEof
-         \/ TTasks \/ TFds \/ TSkipped \/ TInstallMonitor \/ TBurst \/ TSabotage \/ TPanic \/ TTimeout \/ THarness \/ TEnd
+         \/ TTasks \/ TFds \/ TSkipped \/ TInstallMonitor \/ TBurst \/ TSabotage \/ TFdExhaust \/ TFdRelease \/ TPanic \/ TTimeout \/ THarness \/ TEnd
 TSpec == TInit /\ [][TNext]_tvars
 Accepted == Consumed
 =============================================================================
